@@ -8,6 +8,9 @@
 #include "ccl/lang/TextEnvironment.h"
 #include "ccl/lang/LexicalTerm.h"
 
+#include <charconv>
+#include <limits>
+
 namespace ccl::lang {
 
 namespace {
@@ -129,9 +132,15 @@ Reference Reference::Parse(std::string_view refStr) {
     return Reference{ EntityRef{ std::string{ tokens.at(EntityRef::TR_ENTITY) }, std::move(form) } };
   }
   case ReferenceType::collaboration: {
+    const auto offsetToken = tokens.at(CollaborationRef::CR_OFFSET);
+    int32_t offset{};
+    const auto parsed = std::from_chars(offsetToken.data(), offsetToken.data() + offsetToken.size(), offset);
+    if (parsed.ec != std::errc{} ||
+        offset < std::numeric_limits<int16_t>::min() || offset > std::numeric_limits<int16_t>::max()) {
+      return {};
+    }
     return Reference{ 
-      CollaborationRef{ std::string{ tokens.at(CollaborationRef::CR_TEXT) },
-      static_cast<int16_t>(stoi(std::string{ tokens.at(CollaborationRef::CR_OFFSET) })) } 
+      CollaborationRef{ std::string{ tokens.at(CollaborationRef::CR_TEXT) }, static_cast<int16_t>(offset) } 
     };
   }
   default:
